@@ -6,6 +6,7 @@ import (
 	"log/slog"
 	"os"
 	"testing"
+	"time"
 
 	"github.com/AdguardTeam/urlfilter"
 	"github.com/AdguardTeam/urlfilter/filterlist"
@@ -18,6 +19,9 @@ type c19Case struct {
 	Lists   []ListSpec `json:"lists"` // all file-backed
 	Queries []Q        `json:"queries"`
 }
+
+// c19QueryDeadline: a single engine query normally takes microseconds.
+const c19QueryDeadline = 30 * time.Second
 
 // c19Engines builds file-backed engines and returns handles on the lists.
 func c19Engines(lists []ListSpec) (*engSet, []*filterlist.FileRuleList, func(), error) {
@@ -105,10 +109,18 @@ func checkC19(c c19Case, rec *Rec) *Violation {
 				}
 				var got map[string]bool
 				var pan any
-				func() {
+				done := make(chan struct{})
+				go func() {
+					defer close(done)
 					defer func() { pan = recover() }()
 					got = en.resultSet(q)
 				}()
+				select {
+				case <-done:
+				case <-time.After(c19QueryDeadline):
+					// a query is microseconds of work: not returning for this long is a deadlock, not slowness
+					return viol(id, "C19:query-does-not-return-after-fault", "fault %s before query %d: query %d %+v did not return within %v", kind, k, i, q, c19QueryDeadline)
+				}
 				rec.Eval()
 				if pan != nil {
 					cleanup()
